@@ -209,9 +209,10 @@ PROPS["C19"] = {
              "distinct by case hash."),
     "assumptions": ["documented panics (SourceAddr with an invalid sub-path, Must*, use of a closed builder) are not entry points", "a hang is declared only with a go-slug frame in the goroutine dump; otherwise the run is inconclusive"],
     "quick": [rapid("tree", "^TestPropTree$", 500, shards=2, timeout=900), rapid("bytes", "^TestPropUnpackBytes$", 2000, shards=2),
-              rapid("addrs", "^TestPropAddr$", 20000, shards=2)],
+              rapid("addrs", "^TestPropAddr$", 20000, shards=2), rapid("manifests", "^TestPropManifests$", 5000, shards=2)],
     "thorough": [rapid("tree", "^TestPropTree$", 8000, shards=6, timeout=7000), rapid("bytes", "^TestPropUnpackBytes$", 40000, shards=4),
-                 rapid("addrs", "^TestPropAddr$", 400000, shards=4), fuzz("FuzzUnpackBytes", "120s"), fuzz("FuzzAddr", "120s")],
+                 rapid("addrs", "^TestPropAddr$", 400000, shards=4), rapid("manifests", "^TestPropManifests$", 100000, shards=4),
+                 fuzz("FuzzUnpackBytes", "120s"), fuzz("FuzzAddr", "120s"), fuzz("FuzzManifest", "120s")],
 }
 
 PROPS["C06"] = {
@@ -353,4 +354,22 @@ PROPS["C10"] = {
     "assumptions": ["builds failing for stricter reasons (checksum refuses links to directories or dangling links) are fine"],
     "quick": [rapid("sanitised", "^TestPropSanitised$", 1200, shards=4)],
     "thorough": [rapid("sanitised", "^TestPropSanitised$", 15000, shards=12)],
+}
+
+PROPS["C18"] = {
+    "pkg": "c18",
+    "level": "exploration",
+    "rule": ("(1) manifest documents generated field by field: format 1/0/2/missing/string/float/huge, package entries with 'local' drawn from "
+             "valid names and 29 hostile ones ('', '.', '..', 'a/b', '/abs', 'x/../y', '..foo', 'a\\b', '../sibling', './x', 'x/', NUL, 300 "
+             "bytes, the manifest's own name, duplicates and aliases), sources valid / invalid / with sub-path / with credentials, registry "
+             "entries with valid and invalid versions and real sources, and raw JSON degenerates: if OpenDir succeeds no 'local' has a "
+             "separator or is '', '.' or '..', and every forward lookup (remote, registry, final registry, with sub-paths) returns a path "
+             "strictly inside the root; (2) on those and on real bundles built from worlds with aliases: for every package directory and "
+             "existing / non-existing / non-ASCII tails, spelled absolute, relative to the cwd and with '.'/'..' segments, "
+             "SourceForLocalPath succeeds and LocalPathForSource of its result is Clean(Abs(path)); the root, the manifest file, unknown "
+             "directories, siblings sharing the root's name prefix and paths above the root are refused. Thorough: native fuzzing of manifest "
+             "bytes. Non-trivial = hostile 'local' or a real bundle; distinct by case hash."),
+    "assumptions": ["file names are valid UTF-8 (an address is text)"],
+    "quick": [rapid("manifest", "^TestPropManifest$", 2500, shards=2), rapid("inverse", "^TestPropInverse$", 400, shards=2)],
+    "thorough": [rapid("manifest", "^TestPropManifest$", 60000, shards=8), rapid("inverse", "^TestPropInverse$", 4000, shards=6), fuzz("FuzzOpenDirManifest", "120s")],
 }
